@@ -36,6 +36,7 @@ variable (s : St) (d : Bool)
 @[simp] theorem touch_mtx : (touch s d).mtx = s.mtx := by unfold touch; split <;> (try split) <;> rfl
 @[simp] theorem touch_waiting : (touch s d).waiting = s.waiting := by unfold touch; split <;> (try split) <;> rfl
 @[simp] theorem touch_finished : (touch s d).finished = s.finished := by unfold touch; split <;> (try split) <;> rfl
+@[simp] theorem touch_retMark : (touch s d).retMark = s.retMark := by unfold touch; split <;> (try split) <;> rfl
 @[simp] theorem touch_final : (touch s d).final = s.final := by unfold touch; split <;> (try split) <;> rfl
 @[simp] theorem touch_ioReady : (touch s d).ioReady = s.ioReady := by unfold touch; split <;> (try split) <;> rfl
 @[simp] theorem touch_active : (touch s d).active = s.active := by unfold touch; split <;> (try split) <;> rfl
@@ -68,6 +69,7 @@ variable (s : St) (k : Nat) (t : FThread)
 @[simp] theorem setThr_mtx : (setThr s k t).mtx = s.mtx := rfl
 @[simp] theorem setThr_waiting : (setThr s k t).waiting = s.waiting := rfl
 @[simp] theorem setThr_finished : (setThr s k t).finished = s.finished := rfl
+@[simp] theorem setThr_retMark : (setThr s k t).retMark = s.retMark := rfl
 @[simp] theorem setThr_final : (setThr s k t).final = s.final := rfl
 @[simp] theorem setThr_ioReady : (setThr s k t).ioReady = s.ioReady := rfl
 @[simp] theorem setThr_active : (setThr s k t).active = s.active := rfl
@@ -79,7 +81,7 @@ end setThr
 
 /-- unfold one step of the loop thread into its branches (task bodies stay behind `runTop`) -/
 macro "loop_cases" : tactic => `(tactic| (
-  unfold stepLoop
+  unfold stepLoop stepLoopFD
   split
   all_goals (try simp only [testQuit, leaveLoop, enterLoop])
   all_goals (repeat' split)))
